@@ -71,6 +71,26 @@ func init() {
 			}
 			return Slice{A: out}
 		},
+		"bytes.Compare": func(in *Interp, fn *ssa.Function, a []Value) Value {
+			x, y := a[0].(Slice), a[1].(Slice)
+			// lexicographic comparison as an ite chain (lengths are concrete)
+			n := len(x.A)
+			if len(y.A) < n {
+				n = len(y.A)
+			}
+			tail := BVConstI(64, 0)
+			if len(x.A) < len(y.A) {
+				tail = BVConstI(64, -1)
+			} else if len(x.A) > len(y.A) {
+				tail = BVConstI(64, 1)
+			}
+			r := tail
+			for i := n - 1; i >= 0; i-- {
+				xb, yb := x.A[i].(*Term), y.A[i].(*Term)
+				r = Ite(BVCmp("bvult", xb, yb), BVConstI(64, -1), Ite(BVCmp("bvugt", xb, yb), BVConstI(64, 1), r))
+			}
+			return r
+		},
 		"bytes.Equal": func(in *Interp, fn *ssa.Function, a []Value) Value {
 			x, y := a[0].(Slice), a[1].(Slice)
 			if len(x.A) != len(y.A) {
